@@ -309,7 +309,7 @@ def run_shard(cfg):
         n = run_limit(cfg, out)
     else:
         n = c05.run_faults(cfg, out, props=PROPS, tag="C06", extra=shape_extra)
-    return {"evaluations": n, "distinct": sorted(out["distinct"]), "counters": dict(out["counters"]),
+    return {"evaluations": n, "distinct": sorted(out["distinct"]), "distinct_count": out.get("distinct_n", 0), "counters": dict(out["counters"]),
             "violations": out["violations"][:60], "samples": out["samples"]}
 
 
